@@ -35,6 +35,43 @@ fn main()
 			let a = penne::alpha::parser::parse(penne::alpha::lexer::lex(&src, "m.pn"));
 			println!("ALPHA {}", synterm::module_alpha(&a));
 		}
+		Some("stages") =>
+		{
+			// development aid: where does poison sit after each stage?
+			use penne::alpha::*;
+			let src = std::fs::read_to_string(args.get(2).expect("file")).expect("read");
+			let d = parser::parse(lexer::lex(&src, "m.pn"));
+			let d = expander::expand_one("m.pn", d);
+			let d = scoper::analyze(d);
+			let mut typer = typer::Typer::default();
+			let mut analyzer = analyzer::Analyzer::default();
+			let d: Vec<_> = d.into_iter().map(|x| typer.declare(x)).collect();
+			for x in &d
+			{
+				analyzer.declare(x);
+			}
+			for x in d
+			{
+				let x = typer.analyze(x);
+				let dump = format!("{:#?}", x);
+				println!("AFTER TYPER: {} poison mentions", dump.matches("Poison").count());
+				for (i, l) in dump.lines().enumerate()
+				{
+					if std::env::var("PV_FULL").is_ok() || l.contains("Poison") || l.contains("Error(")
+					{
+						println!("  {}: {}", i, l.trim());
+					}
+				}
+				let x = analyzer.analyze(x);
+				let dump = format!("{:#?}", x);
+				println!("AFTER ANALYZER: {} poison mentions", dump.matches("Poison").count());
+				match resolver::resolve(x)
+				{
+					Ok(_) => println!("RESOLVED ok"),
+					Err(e) => println!("RESOLVE errors: {:?}", e.codes()),
+				}
+			}
+		}
 		Some("digest") =>
 		{
 			install_panic_hook();
